@@ -9,6 +9,7 @@ import (
 	"fmt"
 	"os"
 	"path/filepath"
+	"runtime/debug"
 	"sort"
 	"strconv"
 	"strings"
@@ -105,6 +106,9 @@ func New(property, tier, level string) *Run {
 		tier = "quick"
 	}
 	seed, _ := strconv.ParseInt(os.Getenv("VERIF_SEED"), 10, 64)
+	// the explorations allocate and drop whole worlds at a high rate; without a soft limit the collector lets
+	// the heap of a 16-core run grow to tens of GB before it catches up (the sandbox has no memory cgroup)
+	debug.SetMemoryLimit(16 << 30)
 	r := &Run{Property: property, Tier: tier, Level: level, Seed: seed, start: time.Now(),
 		distinct: make(map[[16]byte]struct{}), Exhaustive: true, Extra: map[string]any{}}
 	if buf, err := os.ReadFile(filepath.Join(Root, "known_findings.json")); err == nil {
